@@ -151,6 +151,15 @@ var (
 	}
 )
 
+// value 3 of every GSI text field fills the field to its last byte
+func init() {
+	const fill = "ABCDEFGHIJKLMNOPQRSTUVWXYZ0123456789"
+	for k, f := range fields {
+		f.pool[3] = fill[:f.n]
+		fields[k] = f
+	}
+}
+
 func rev(m map[int]string, s string) int {
 	for k, v := range m {
 		if v == s {
